@@ -21,7 +21,7 @@ T_Copy ==
     /\ ChkP(MustCopy => IsOk(E.res), {"C19"}, "copy-of-a-rule-abiding-file-failed")
     /\ IsOk(E.res) =>
          /\ ChkP(E.copy_readable = 1, {"C19"}, "copy-is-not-readable")
-         /\ ChkP(E.source_report = E.copy_report /\ E.report_same = 1, {"C19"}, "copy-reports-other-metadata-than-the-source")
+         /\ E.copy_readable = 1 => ChkP(E.source_report = E.copy_report /\ E.report_same = 1, {"C19"}, "copy-reports-other-metadata-than-the-source")
          /\ ChkP(E.points_same = 1, {"C19"}, "copy-holds-other-points-than-the-source")
          /\ ChkP(E.blobs_same = 1, {"C19"}, "copy-holds-other-image-data-than-the-source")
          /\ ChkP(E.second_copy_same = 1, {"C19"}, "copying-the-copy-changes-content")
